@@ -84,7 +84,11 @@ def check_op(ctx, h, r):
         ta = ep.safe_tree(out)
         if isinstance(ta, tuple):
             if not isinstance(tb, tuple):
-                via = "inherit" if inherited_at(tb, ta[1].split(".")) else "binding"
+                try:
+                    op_names = ep.split_path(path)
+                except Exception:  # noqa: BLE001
+                    op_names = []
+                via = "inherit" if inherited_at(tb, ta[1].split(".")) or (op_names and inherited_at(tb, op_names)) else "binding"
                 ctx.fail({"clause": "duplicate", "via": via, **base_key}, {**inp, "output": out},
                          f"{r.op!r} created a duplicate definition {ta[1]} in {out!r}")
             return
